@@ -171,9 +171,26 @@ func c12(c *Check) {
 	c.FrozenFiltered("C11", "C12/conversion-pays-the-requested-denomination", func(fn string) bool { return strings.Contains(fn, "Keeper.convert") })
 	c.Rule("C12/toggle-changes-only-the-flag", "ToggleRelay stores the pair it loaded with nothing but the enabled flag flipped: address spelling, denominations and owner — and with them the pair's id and its index entries — stay what they were", 1)
 	{
-		loaded := "aggregate/keeper.(Keeper).GetTokenPair($0, $1, aggregate/keeper.(Keeper).GetTokenPairID($0, $1, $2))#0"
-		c.Spec("C12/toggle-changes-only-the-flag", Macros{"P": loaded}, FnSpec{Fn: agK + "Keeper.ToggleRelay", Effects: []Eff{
-			{Label: "stores the loaded pair with the flag flipped", Callee: "keeper.(Keeper).SetTokenPair", N: 1, Args: map[int]string{2: "{P} with {Enabled: !{P}.Enabled}"}}}})
+		tg := c.F(agK + "Keeper.ToggleRelay")
+		sets := c.Calls(tg, "keeper.(Keeper).SetTokenPair")
+		c.Req(len(sets) == 1, "C12/toggle-changes-only-the-flag", funcName(tg)+"/one SetTokenPair", tg.Pos(), "", fmt.Sprintf("%d SetTokenPair sites in ToggleRelay", len(sets)))
+		for _, cs := range sets {
+			arg := c.P.ArgExprs(cs)[2]
+			fromLoad, other := false, ""
+			arg.Walk(func(e *Expr) {
+				if e.IsCall("keeper.(Keeper).GetTokenPair") {
+					fromLoad = true
+				}
+				if e.Op == "kv" && e.Name != "Enabled" {
+					other = e.Name
+				}
+				if e.IsCall("types.NewTokenPair") {
+					other = "NewTokenPair"
+				}
+			})
+			c.Req(fromLoad && other == "", "C12/toggle-changes-only-the-flag", funcName(tg)+"/stored pair", cs.Ins.Pos(), "the loaded pair with only Enabled assigned",
+				"ToggleRelay stores "+trunc(arg.String())+": the stored pair is not the loaded pair with only its Enabled flag assigned ("+other+"), so its address spelling / denominations / owner — and with them its id — can change")
+		}
 	}
 	c.Rule("C12/id-depends-on", "the pair id hashes the contract address and the first denomination only (so functions changing either must re-index, see three-way-write)", 1)
 	for _, w := range c.P.StoreWrites() {
